@@ -842,7 +842,7 @@ def c11_mix_case(res, case, tier):
 
 # ================================================================ driver
 
-N = {"C03": {"quick": 4000, "thorough": 40000}, "C10": {"quick": 3000, "thorough": 30000}, "C11": {"quick": 12000, "thorough": 120000}}
+N = {"C03": {"quick": 8000, "thorough": 80000}, "C10": {"quick": 5000, "thorough": 50000}, "C11": {"quick": 20000, "thorough": 200000}}
 
 
 def make_case(pid, rng, tier, i):
